@@ -62,7 +62,6 @@ Definition op_defect (D : design) : option defect :=
 
 (* ---- 2. the connection graph ---- *)
 Definition edges (D : design) : list edge := map (fun c => (c_a c, c_b c)) (d_conn D).
-Definition nets (D : design) : list (list node) := components (edges D).
 (* a graph is a forest iff every edge is a bridge: the edge {a,b} closes a loop iff a and b stay connected without it *)
 Definition conn_loop (E : list edge) : bool :=
   existsb (fun e => negb (Nat.eqb (fst e) (snd e)) &&
@@ -73,30 +72,32 @@ Definition conn_loop (E : list edge) : bool :=
 Definition base (D : design) : list node :=
   map w_node (d_wr D) ++ filter (fun n => is_in (kind D n) && Nat.eqb (host D n) 0) (all_nodes D).
 
-(* member m of the net described by `innet` is a driver candidate, given the objects R that other resolved nets drive:
-   it is a constant, or related to a base-driven object, or related to an object that another net drives *)
-Definition cand (O : opts) (D : design) (R : list node) (innet : node -> bool) (m : node) : bool :=
+(* member m of the net `net` is a driver candidate, given the objects R that resolved nets drive:
+   it is a constant, or related to a base-driven object, or related to an object that ANOTHER net drives
+   (bit-level reading: any other driven object, also of the same net) *)
+Definition cand (O : opts) (D : design) (R : list node) (net : list node) (m : node) : bool :=
   is_const (kind D m)
   || existsb (fun d => o_rel O (adr D m) (adr D d)) (base D)
   || existsb (fun r => o_rel O (adr D m) (adr D r) &&
-                       (if o_samenet_overlap O then negb (Nat.eqb r m) else negb (innet r))) R.
+                       (if o_samenet_overlap O then negb (Nat.eqb r m) else negb (memn r net))) R.
 
-Definition in_net (net : list node) (r : node) : bool := memn r net.
-
-(* one round: every net that has a candidate turns its non-candidates into driven objects *)
-Definition step (O : opts) (D : design) (R : list node) : list node :=
-  R ++ flat_map (fun net => if existsb (cand O D R (in_net net)) net
-                            then filter (fun m => negb (cand O D R (in_net net) m)) net else []) (nets D).
-Fixpoint iter (O : opts) (D : design) (n : nat) (R : list node) : list node :=
-  match n with 0%nat => R | S k => iter O D k (step O D R) end.
-Definition driven_final (O : opts) (D : design) : list node := iter O D (length (d_sigs D)) [].
+(* one round: every net that has a candidate turns its non-candidates into driven objects (N = the nets) *)
+Definition fresh (O : opts) (D : design) (N : list (list node)) (R : list node) : list node :=
+  flat_map (fun net => if existsb (cand O D R net) net
+                       then filter (fun m => negb (cand O D R net m) && negb (memn m R)) net else []) N.
+Fixpoint iter (O : opts) (D : design) (N : list (list node)) (n : nat) (R : list node) : list node :=
+  match n with
+  | 0%nat => R
+  | S k => match fresh O D N R with [] => R | F => iter O D N k (R ++ F) end
+  end.
+Definition driven_final (O : opts) (D : design) (N : list (list node)) : list node := iter O D N (length (d_sigs D)) [].
 
 Definition two_cands (O : opts) (D : design) (R : list node) (net : list node) : bool :=
-  existsb (fun m1 => cand O D R (in_net net) m1 &&
-                     existsb (fun m2 => negb (Nat.eqb m1 m2) && cand O D R (in_net net) m2) net) net.
-Definition net_multi (O : opts) (D : design) : bool := existsb (two_cands O D (driven_final O D)) (nets D).
-Definition net_none (O : opts) (D : design) : bool :=
-  existsb (fun net => negb (existsb (cand O D (driven_final O D) (in_net net)) net)) (nets D).
+  existsb (fun m1 => cand O D R net m1 &&
+                     existsb (fun m2 => negb (Nat.eqb m1 m2) && cand O D R net m2) net) net.
+Definition net_multi (O : opts) (D : design) (N : list (list node)) (R : list node) : bool := existsb (two_cands O D R) N.
+Definition net_none (O : opts) (D : design) (N : list (list node)) (R : list node) : bool :=
+  existsb (fun net => negb (existsb (cand O D R net) net)) N.
 
 (* ---- 4. update blocks against each other (_check_upblk_writes) ---- *)
 Definition blk_multi (O : opts) (D : design) : bool :=
@@ -127,17 +128,17 @@ Definition edge_defect (D : design) (u v : node) (h : nat) : option defect :=
   else if opt_eqb (parent D hu) (parent D hv) then (if is_out ku && is_in kv then None else Some PortRule)
   else Some PortRule.
 
-(* w is the driver of the net that contains a *)
-Definition is_writer (O : opts) (D : design) (a w : node) : bool :=
-  same_b (nets D) a w && cand O D (driven_final O D) (same_b (nets D) a) w.
-(* x is on the driver's side of the connection {a,b}: data flows from x across the connection *)
-Definition on_side (O : opts) (D : design) (a b x : node) : bool :=
-  existsb (fun w => is_writer O D a w &&
-                    (Nat.eqb w x || same_b (components (remove_und a b (edges D))) w x)) (all_nodes D).
-Definition conn_viol (O : opts) (D : design) (k : defect -> bool) (c : cfact) : bool :=
-  (on_side O D (c_a c) (c_b c) (c_a c) &&
+(* all members of the classes that contain a *)
+Definition class_of (N : list (list node)) (a : node) : list node := concat (filter (memn a) N).
+(* x is on the driver's side of the connection {a,b}: some driver of a's net is x or stays connected to x without {a,b} *)
+Definition on_side (O : opts) (D : design) (N : list (list node)) (R : list node) (C' : list (list node)) (a x : node) : bool :=
+  let cls := class_of N a in
+  existsb (fun w => cand O D R cls w && (Nat.eqb w x || same_b C' w x)) cls.
+Definition conn_viol (O : opts) (D : design) (N : list (list node)) (R : list node) (k : defect -> bool) (c : cfact) : bool :=
+  let C' := components (remove_und (c_a c) (c_b c) (edges D)) in
+  (on_side O D N R C' (c_a c) (c_a c) &&
      match edge_defect D (c_a c) (c_b c) (c_host c) with Some d => k d | None => false end)
-  || (on_side O D (c_a c) (c_b c) (c_b c) &&
+  || (on_side O D N R C' (c_a c) (c_b c) &&
      match edge_defect D (c_b c) (c_a c) (c_host c) with Some d => k d | None => false end).
 Definition is_portrule (d : defect) := match d with PortRule => true | _ => false end.
 Definition is_invalidconn (d : defect) := match d with InvalidConn => true | _ => false end.
@@ -148,12 +149,15 @@ Definition defect_with (O : opts) (D : design) : option defect :=
   | Some d => Some d
   | None =>
     if conn_loop (edges D) then Some InvalidConn
-    else if net_multi O D || blk_multi O D then Some MultiWriter
-    else if port_upblk D then Some PortRule
-    else if net_none O D then Some NoWriter
-    else if existsb (conn_viol O D is_portrule) (d_conn D) then Some PortRule
-    else if existsb (conn_viol O D is_invalidconn) (d_conn D) then Some InvalidConn
-    else None
+    else
+      let N := components (edges D) in
+      let R := driven_final O D N in
+      if net_multi O D N R || blk_multi O D then Some MultiWriter
+      else if port_upblk D then Some PortRule
+      else if net_none O D N R then Some NoWriter
+      else if existsb (conn_viol O D N R is_portrule) (d_conn D) then Some PortRule
+      else if existsb (conn_viol O D N R is_invalidconn) (d_conn D) then Some InvalidConn
+      else None
   end.
 
 Definition bit_level_defect (D : design) : option defect := defect_with bitlevel D.
